@@ -78,6 +78,16 @@ def oracle(ctx, IW, CW, v, n, pairs=None):
             c = x[True:w:s]
             if int(c) != ((1 << w) - 1) - exp or c.num_bits != w:
                 ctx.violation(site, 'slice-complement', '(%d,%d)[True:%d:%d] = %d/%d' % (v, n, w, s, int(c), c.num_bits), dict(v=v, n=n, w=w, s=s), input=[v, n, w, s])
+            # reversed slice: the bits of the plain slice in reverse order, within the slice width; an involution there
+            rs = x[None:-w:s]
+            rexp = int(''.join(str((exp >> i) & 1) for i in range(w)), 2)
+            if int(rs) != rexp or rs.num_bits != w or int(rs[None:-w:0]) != exp:
+                ctx.violation(site, 'slice-reversed', '(%d,%d)[:-%d:%d] = %d/%d expected %d/%d' % (v, n, w, s, int(rs), rs.num_bits, rexp, w), dict(v=v, n=n, w=w, s=s), input=[v, n, w, s])
+            if s == 0:
+                # reversal within an explicit width not wider than the field: the low w bits reversed
+                rw = x.reverse_bit_order(w)
+                if int(rw) != rexp or int(rw.reverse_bit_order(w)) != exp:
+                    ctx.violation(site, 'reverse-width', 'reverse_bit_order(%d) of (%d,%d) = %d expected %d' % (w, v, n, int(rw), rexp), dict(v=v, n=n, w=w), input=[v, n, w])
     tabs = _tables()
     for L, k in ((2, 1), (4, 2), (16, 4)):
         for o in ('lsb', 'msb'):
